@@ -401,6 +401,71 @@ def check_shared_exception(acc):
     acc.outcome('shared-exception')
 
 
+def check_shared_components(acc):
+    """Bundled components used by two applications at once: one Route whose endpoint is a Redirector, bound into an
+    application with response-rewriting middlewares and into a plain one; MetaApplications with and without extra
+    peripherals.  Whatever one application is asked, the other answers like a freshly built twin."""
+    import itertools
+    from clastic import Application, Route, MetaApplication
+    from clastic.utils import Redirector
+    from clastic.middleware import HTTPCacheMiddleware, GzipMiddleware
+    from clastic.meta import MetaPeripheral
+
+    def observe(app, path, hdrs=None):
+        r = wsgi.call(app, path, 'GET', headers=hdrs)
+        return (r.status, sorted((k, v) for k, v in (r.headers or []) if k not in ('Date',)), r.body, repr(r.raised) if r.raised else None)
+
+    def plain_app(rt):
+        return Application([rt])
+    for first in ('etag', 'conditional', 'gzip'):
+        rt = Route('/go', Redirector('/elsewhere', code=301))
+        a = Application([rt], middlewares=[HTTPCacheMiddleware(max_age=30), GzipMiddleware()])
+        b = plain_app(rt)
+        want = observe(plain_app(Route('/go', Redirector('/elsewhere', code=301))), '/go')
+        r1 = wsgi.call(a, '/go', 'GET', headers={'Accept-Encoding': 'gzip'} if first == 'gzip' else None)
+        if first == 'conditional' and r1.headers:
+            et = r1.header('ETag')
+            if et:
+                wsgi.call(a, '/go', 'GET', headers={'If-None-Match': et})
+        got = observe(b, '/go')
+        acc.transitions += 3
+        acc.validated += 1
+        if got != want:
+            acc.violation('C11:shared-component:redirector', 'after application A (cache + gzip middlewares) served the shared '
+                          'Redirector route (%s), application B answers %r, a fresh twin answers %r' % (first, got[:2], want[:2]),
+                          {'part': 'shared-components'})
+            return
+
+    class Extra(MetaPeripheral):
+        title = 'Extra'
+        group_key = 'zq_extra'
+
+        def get_context(self):
+            return {'zq': 1}
+
+        def get_general_items(self):
+            return [('ZQ extra item', 1)]
+
+        def render_main_page_html(self, context):
+            return 'ZQ extra section'
+    for order in itertools.permutations(['plain1', 'extra', 'plain2']):
+        apps = {}
+        for tag in order:
+            meta = MetaApplication(peripherals=[Extra()]) if tag == 'extra' else MetaApplication()
+            apps[tag] = Application([('/_meta/', meta)])
+        for tag in order:
+            for path in ('/_meta/', '/_meta/json/'):
+                r = wsgi.call(apps[tag], path, 'GET')
+                acc.transitions += 1
+                acc.validated += 1
+                has = b'zq_extra' in (r.body or b'') or b'ZQ extra' in (r.body or b'')
+                if r.raised is not None or r.code != 200 or has != (tag == 'extra'):
+                    acc.violation('C11:shared-component:meta-peripherals', 'meta application %s (constructed in order %r) answers %s '
+                                  'with %s, extra peripheral shown: %r' % (tag, order, path, r.status, has), {'part': 'shared-components'})
+                    return
+    acc.outcome('shared-components')
+
+
 def check_render_factories(acc):
     """Applications with render factories of their own: whatever one application's factory has built, loaded or
     remembered never shows in another application - in every order of construction and of first requests, also when
@@ -572,6 +637,8 @@ def shard(tier, i, n, seed):
         check_render_factories(acc)
     if i == 4 % n:
         check_shared_exception(acc)
+    if i == 5 % n:
+        check_shared_components(acc)
     for k, hist in enumerate(states):
         if k % n != i:
             continue
@@ -612,6 +679,9 @@ def finish(tier, merged, results):
 def replay(case):
     common.setup_repo()
     acc = common.Acc()
+    if case.get('part') == 'shared-components':
+        check_shared_components(acc)
+        return (False, acc.violations[0]['desc'][:3000]) if acc.violations else (True, 'ok')
     if case.get('part') == 'shared-exception':
         check_shared_exception(acc)
         return (False, acc.violations[0]['desc'][:3000]) if acc.violations else (True, 'ok')
